@@ -55,6 +55,8 @@ impl Group for C11Sim {
             c("hvh 0 g 0|restart|rv 0|hvho 0 g 1|restart|hvh1o 0 g 2|ks 1000|restart|hvh1 0 g 0"),
             // a stub pruned by the heartbeat after more than six blocks, then created again under the same id
             c("newch 2|blkn 6|hb|newch 3|blk+ g|hb|restart|newch 2|restart|blkn 7|hb|newch 3|restart|forget 1"),
+            // the on-disk store: what a crash image of the database file holds after each request
+            c("world redb|al add g|blk+ g|vh 0 g 0|rv 0|forget 0|blk+ g|blkn 3|newch 2|ks 1000|restart|scp 0 0|blk- g"),
             // a full channel map
             c("newch 1|newch 2|newch 3|newch 4|restart|newch 4|forget 2|newch 4|restart|newch 5"),
             // closing through either entry point must be durable
@@ -70,6 +72,10 @@ impl Group for C11Sim {
         }
         if rng.chance(1, 3) { ops.insert(0, "world perm".to_string()); }
         else if rng.chance(1, 6) { ops.insert(0, "world nocp".to_string()); }
+        else if rng.chance(1, 8) {
+            // the on-disk redb store as the main side: a crash image after every request
+            ops.insert(0, "world redb".to_string());
+        }
         else if rng.chance(1, 5) {
             // composite persister (main + backup): sometimes the main store is lost and recovered
             ops.insert(0, "world backup".to_string());
@@ -88,7 +94,7 @@ impl Group for C11Sim {
         // sometimes the last request runs while the store refuses writes (in `world backup`: either side)
         if rng.chance(1, 4) {
             let inner = rng.pick(&["vh 0 g 0", "rv 0", "scp 0 0", "scp1 0 0", "cpr 0 g", "sh 0", "shr", "shx 0 g", "mc g", "mc1 g", "act", "al add g", "newch 5", "forget 0", "forget 1"]).to_string();
-            let side = if ops.first().map(|o| o == "world backup").unwrap_or(false) && rng.chance(1, 2) { "m" } else { "s" };
+            let side = if ops.first().map(|o| o == "world backup" || o == "world redb").unwrap_or(false) && rng.chance(1, 2) { "m" } else { "s" };
             // bring the channel into a state where the request is likely to be accepted
             if inner == "rv 0" { ops.push("vh 0 g 0".into()); }
             if inner == "cpr 0 g" { ops.push("scp 0 0".into()); ops.push("scp 0 0".into()); }
